@@ -66,7 +66,7 @@ const MAX_NODES: usize = 3;
 /// Keys of the kademlia options of a `node` line.
 const KAD_KEYS: [&str; 11] = ["rf", "ttl", "upd", "val", "mr", "mrs", "mpk", "mpa", "mppk", "pri", "pttl"];
 /// How long the record waits for the protocol objects to report themselves.
-const NOTES_DEADLINE: Duration = Duration::from_millis(2000);
+const NOTES_DEADLINE: Duration = Duration::from_millis(4000);
 const REPLY_TIMEOUT: Duration = Duration::from_secs(3);
 
 // ---------------------------------------------------------------------------------------------
